@@ -345,17 +345,31 @@ def run_listen(cfg, via, cfg_mode, ch, public_port=80):
                     viol.append(('listener-leaked', feat + '/after-%s' % (injected if isinstance(injected, str) else type(injected).__name__),
                                  'listen() failed (%s) but the local listener 127.0.0.1:%d is still open'
                                  % (rec.summary()[1] if rec.fires else 'pending', open_ports[0].port)))
-            if injected == 'rejected' and cfg['kind'] == 'fs' and not viol and impl.wire.lost_seq is None:
-                # the caller tries again: Tor never accepted the service, so it has to be asked again
+            if injected in ('rejected', 'uploads-failed') and cfg['kind'] == 'fs' and not viol and impl.wire.lost_seq is None:
+                # the caller tries again: Tor never accepted the service (or forwards to the listener that was closed when the
+                # descriptor wait failed), so it has to be asked again - for the port that is bound now
                 n2 = len(sim.commands)
+                np0 = len(w.reactor.ports)
                 sim.hold_prefixes = []
                 rec2 = DRec(ep.listen(fac))
                 sim.pump()
                 again = [c for c in sim.commands[n2:] if c.startswith('SETCONF') and 'HiddenServiceDir' in c]
+                why = 'Tor rejected the SETCONF' if injected == 'rejected' else 'every upload failed'
                 if not again:
-                    viol.append(('retry-after-rejection-did-not-ask-tor', feat,
-                                 'listen() failed because Tor rejected the SETCONF; a second listen() wrote %r and is %r'
-                                 % (sim.commands[n2:], rec2.summary()[:2])))
+                    viol.append(('retry-after-%s-did-not-ask-tor' % ('rejection' if injected == 'rejected' else 'failed-descriptor-wait'), feat,
+                                 'listen() failed because %s; a second listen() wrote %r and is %r'
+                                 % (why, sim.commands[n2:], rec2.summary()[:2])))
+                else:
+                    newp = [p for p in w.reactor.ports[np0:] if p.open]
+                    target, cur = [], None
+                    for k, v in kvline.parse(again[-1][len('SETCONF '):]):
+                        if k == 'HiddenServiceDir':
+                            cur = v
+                        elif k == 'HiddenServicePort' and cur == the_dir:
+                            target.append(v)
+                    if len(newp) != 1 or target != ['%d 127.0.0.1:%d' % (public_port, newp[0].port)]:
+                        viol.append(('port-mapping', feat + '/retry', 'second listen(): Tor asked to forward %r, open local listeners %r'
+                                     % (target, [(p.interface, p.port) for p in newp])))
             errs = [e for e in w.errors() if 'dataReceived raised' not in e[0]]
             if cfg['kind'] == 'fs' and cfg.get('auth'):
                 # another service's HS_DESC event before Tor has written this service's private_key makes the id lookup raise
